@@ -562,8 +562,13 @@ void World::check_model(const FullObs& o)
     {
         auto exp = model.children_of(0);
         if (as_set(o.roots_v) != as_set(exp) || has_dups(o.roots_v))
+        {
             report("C07", "C07|root_crates|" + F + "|wrong-set",
                    "root_crates() = [" + o.roots + "], expected set [" + ids_str(as_set(exp)) + "]");
+            if (v2)
+                report("C09", "C09|root_crates|v2|lost-or-duplicated",
+                       "root_crates() = [" + o.roots + "], expected members [" + ids_str(as_set(exp)) + "]");
+        }
         else if (v2)
         {
             auto& ord = model.order[0];
@@ -616,6 +621,9 @@ void World::check_model(const FullObs& o)
             bool is_desc = as_set(c.children_v) == model.descendants_of(id);
             report("C07", "C07|children|" + F + (is_desc ? "|returns-descendants" : "|wrong-set"),
                    "children(" + ids + ") = [" + c.children + "], expected set [" + ids_str(as_set(kids)) + "]");
+            if (v2)
+                report("C09", "C09|children|v2|lost-or-duplicated",
+                       "children(" + ids + ") = [" + c.children + "], expected members [" + ids_str(as_set(kids)) + "]");
         }
         else if (v2)
         {
@@ -659,6 +667,9 @@ void World::check_model(const FullObs& o)
                     dead = true;
             report("C08", "C08|crate.tracks|" + F + (dead ? "|removed-track-listed" : "|wrong-set"),
                    "crate " + ids + " tracks() = [" + c.tracks + "], expected set [" + ids_str(as_set(mem)) + "]");
+            if (v2)
+                report("C09", "C09|crate.tracks|v2|lost-or-duplicated",
+                       "crate " + ids + " tracks() = [" + c.tracks + "], expected entries [" + ids_str(mem) + "]");
         }
         else if (v2 && c.tracks_v != mem)
             report("C09", "C09|crate.tracks|v2|order",
